@@ -129,6 +129,9 @@ class Scanner:
         self.muted = 0
         self.return_is_stop = False
         self._caught_class = '.Other'
+        self.cur_key = None             # the keyword of the line this pass is for: ('word', K) | ('starts', P) | ('atom', '') | ('else', '')
+        self.kw_seen = []               # every keyword the code tests for, in the order the tests are met
+        self.dead = False               # an unconditional `continue` has been reached
 
     # ---- helpers -------------------------------------------------------------------------------------------
     @property
@@ -137,8 +140,10 @@ class Scanner:
 
     def emit(self, g, act):
         conds, catch, tid = g
-        if self.muted:
+        if self.muted or self.dead:
             return
+        if act == '.stop' and not conds and len(self.frames) == 1:
+            self.dead = True
         if any(c.kind == 'tok' for c in conds):
             rest = [c for c in conds if c.kind != 'tok']
             self.unknown_text(f'{act} under a test of a single token', (rest, catch, tid))
@@ -151,7 +156,7 @@ class Scanner:
         self.unknown_text(ast.unparse(node)[:80] if isinstance(node, ast.AST) else str(node)[:80], g)
 
     def unknown_text(self, txt, g):
-        if self.muted:
+        if self.muted or self.dead:
             return
         conds = [c for c in g[0] if c.kind != 'tok']
         if contradictory(conds):
@@ -171,6 +176,8 @@ class Scanner:
             if for_env is not None:
                 if isinstance(for_env, Const):
                     return for_env.v
+                if isinstance(for_env, Word) and self.cur_key is not None and self.cur_key[0] == 'word':
+                    return self.cur_key[1]          # in the pass for one keyword, `word` is that keyword
                 raise NotConst(name)
             if name in self.fr.locals:
                 raise NotConst(name)
@@ -282,8 +289,37 @@ class Scanner:
             if c is not None:
                 return f_atom(c)
         if isinstance(av, KwTest):
-            return f_atom(Cond('opaque', 'kw:' + repr(av.items)))
+            return self.kw_truth(av)
         return self.opaque_formula(node)
+
+    @staticmethod
+    def norm_item(it):
+        kind, s = it
+        if kind == 'starts' and len(s) >= 4:
+            return ('word', s[:4])
+        return (kind, s)
+
+    @staticmethod
+    def item_matches(it, key):
+        """does the test item hold for a line whose keyword is `key`?"""
+        if key[0] in ('atom', 'else'):
+            return it[0] == key[0]
+        if it[0] == 'atom':
+            return False
+        if it[1] == key[1]:
+            return True
+        return it[0] == 'starts' and key[1].startswith(it[1])
+
+    def kw_truth(self, kt):
+        """a test of the keyword is decided by the keyword this pass is for"""
+        for it in kt.items:
+            k = self.norm_item(it)
+            if k not in self.kw_seen:
+                self.kw_seen.append(k)
+        if self.cur_key is None:
+            return f_atom(Cond('opaque', 'kw:' + repr(kt.items)))
+        hit = any(self.item_matches(it, self.cur_key) for it in kt.items)
+        return T if hit != kt.negated else F
 
     def tok_cond(self, tv):
         per = {}
@@ -565,6 +601,9 @@ class Scanner:
         kt = self.kwtest(op, a, b)
         if kt is not None:
             return kt
+        if isinstance(a, (Word, Pref)) or isinstance(b, (Word, Pref)):
+            if not self.muted:
+                self.lost.append('test of the keyword not understood: ' + ast.unparse(node)[:60])
         if isinstance(a, (Elem, LoopEl, TokVal)) or isinstance(b, (Elem, LoopEl, TokVal)):
             return self.opaque_formula(node)
         return self.opaque_formula(node)
@@ -1205,6 +1244,11 @@ class Scanner:
         if isinstance(recv, Word):
             if name in ('strip', 'rstrip', 'upper'):
                 return Word()
+            if isinstance(node, ast.AST):
+                try:
+                    return Const(self.ceval(node))
+                except NotConst:
+                    pass
             if name == 'startswith' and len(args) == 1 and isinstance(args[0], Const) and isinstance(args[0].v, (str, tuple)):
                 v = args[0].v
                 vals = [v] if isinstance(v, str) else list(v)
@@ -1934,6 +1978,24 @@ class Scanner:
 
     def st_Match(self, st, g):
         subj = self.ev(st.subject, g)
+        if isinstance(subj, Word) and self.cur_key is not None:
+            for case in st.cases:
+                keys = self.match_keys(case.pattern)
+                if keys is False:
+                    self.unknown(st, g)
+                    return None
+                hit = True if keys is None else self.kw_truth(KwTest([('word', k) for k in keys])) == T
+                if not hit:
+                    continue
+                if case.guard is not None:
+                    f = self.test(case.guard, g)
+                    if f == F:
+                        continue
+                    if f != T:
+                        self.unknown_text('case of the keyword with a guard', g)
+                        return None
+                return self.walk(case.body, g)
+            return None
         if not isinstance(subj, Const):
             if self.hot(subj) or isinstance(subj, (Word, Last)):
                 self.unknown(st, g)
@@ -1949,6 +2011,26 @@ class Scanner:
                 self.unknown(st, g)
                 return None
         return None
+
+    def match_keys(self, pat):
+        """keywords of a case pattern: list, None for the wildcard, False if not understood"""
+        if isinstance(pat, ast.MatchValue):
+            try:
+                v = self.ceval(pat.value)
+            except NotConst:
+                return False
+            return [v] if isinstance(v, str) else False
+        if isinstance(pat, ast.MatchOr):
+            out = []
+            for q in pat.patterns:
+                k = self.match_keys(q)
+                if not k:
+                    return False
+                out += k
+            return out
+        if isinstance(pat, ast.MatchAs) and pat.pattern is None:
+            return None
+        return False
 
     def match_const(self, pat, v):
         if isinstance(pat, ast.MatchValue):
